@@ -22,8 +22,13 @@ def main():
     demo_args = opt.get("--demo-args", "")
     demo_env = opt.get("--demo-env", "")
     demo_tail = opt.get("--demo-tail", "")
+    demo_cargo = opt.get("--demo-cargo", "cargo")
     checks = [c for c in opt.get("--checks", prop).split(",") if c]
     wt = opt.get("--wt", f"/tmp/seed_{prop}")
+    if os.environ.get("SEEDTEST_CONFIRM_ONLY"):
+        checks = []
+    if os.environ.get("SEEDTEST_SKIP_CONFIRM"):
+        a.append("--skip-confirm")
     meta = {"seed_id": sid, "property": prop, "needs_to_manifest": opt.get("--needs", ""), "source": "independent sub-agent (given only the property text and a scratch worktree)",
             "base_commit": subprocess.run("git -C /repo rev-parse --short HEAD", shell=True, stdout=subprocess.PIPE, text=True).stdout.strip(), "ran": []}
     patch = os.path.abspath(patch); demo = os.path.abspath(demo)
@@ -44,33 +49,34 @@ def main():
         ok_build = "error" not in o1
         meta["ran"].append({"cmd": "cargo build --features verif-hooks / dudect (with patch)", "result": "ok" if ok_build else "FAIL"})
         shutil.copy(demo, os.path.join(wt, "tests", demo_name + ".rs"))
-        rc_with, o_with = sh(f"{demo_env} cargo test --offline {demo_args} --test {demo_name} {demo_tail} 2>&1 | grep -E '^test result|panicked|error' | sort -r | head -5", cwd=wt)
+        rc_with, o_with = sh(f"{demo_env} {demo_cargo} test --offline {demo_args} --test {demo_name} {demo_tail} 2>&1 | grep -E '^test result|panicked|error' | sort -r | head -5", cwd=wt)
         demo_fails = "FAILED" in o_with or "panicked" in o_with or ("failed" in o_with and "0 failed" not in o_with)
         meta["ran"].append({"cmd": f"cargo test --offline {demo_args} --test {demo_name} (with patch)", "result": "fails" if demo_fails else "PASSES(unexpected)", "tail": o_with[-300:]})
         sh(f"git apply -R {patch}", cwd=wt)
-        rc_wo, o_wo = sh(f"{demo_env} cargo test --offline {demo_args} --test {demo_name} {demo_tail} 2>&1 | grep -E '^test result|panicked|error' | head -5", cwd=wt)
+        rc_wo, o_wo = sh(f"{demo_env} {demo_cargo} test --offline {demo_args} --test {demo_name} {demo_tail} 2>&1 | grep -E '^test result|panicked|error' | head -5", cwd=wt)
         demo_passes = "test result: ok" in o_wo and "FAILED" not in o_wo
         meta["ran"].append({"cmd": f"cargo test --offline {demo_args} --test {demo_name} (without patch)", "result": "passes" if demo_passes else "FAILS(unexpected)", "tail": o_wo[-300:]})
         sh("git checkout -q -- . && git clean -qfd -e target", cwd=wt)
         meta["confirmed"] = bool(ok_tests and ok_build and demo_fails and demo_passes)
         print(f"[{sid}] confirm: tests={'pass' if ok_tests else 'FAIL'} build={'ok' if ok_build else 'FAIL'} demo_with={'fails' if demo_fails else 'passes'} demo_without={'passes' if demo_passes else 'fails'} -> confirmed={meta['confirmed']}", flush=True)
-    # B: run checks against /repo with the patch
-    rc, out = sh("git status --porcelain", cwd="/repo")
-    assert out.strip() == "", "/repo not clean"
-    rc, out = sh(f"git apply {patch}", cwd="/repo")
-    assert rc == 0, out
     results = {}
-    try:
-        for c in checks:
-            t = time.time()
-            rc, out = sh(f"./check {c} --tier quick", cwd="/verif", timeout=7200)
-            v = [l for l in out.splitlines() if l.startswith("VIOLATION")]
-            what = [l.strip() for l in out.splitlines() if l.strip().startswith("what:")]
-            results[c] = {"exit": rc, "violations": len(v), "first": (what[0][:400] if what else ""), "wall_s": round(time.time() - t, 1)}
-            print(f"[{sid}] check {c}: exit={rc} violations={len(v)} {what[0][:200] if what else ''}", flush=True)
-    finally:
-        sh("git checkout -q -- . && git clean -qfd -e target", cwd="/repo")
-        sh("rm -f /verif/replays/*.json")
+    if checks:
+        # B: run checks against /repo with the patch
+        rc, out = sh("git status --porcelain", cwd="/repo")
+        assert out.strip() == "", "/repo not clean"
+        rc, out = sh(f"git apply {patch}", cwd="/repo")
+        assert rc == 0, out
+        try:
+            for c in checks:
+                t = time.time()
+                rc, out = sh(f"./check {c} --tier quick", cwd="/verif", timeout=7200)
+                v = [l for l in out.splitlines() if l.startswith("VIOLATION")]
+                what = [l.strip() for l in out.splitlines() if l.strip().startswith("what:")]
+                results[c] = {"exit": rc, "violations": len(v), "first": (what[0][:400] if what else ""), "wall_s": round(time.time() - t, 1)}
+                print(f"[{sid}] check {c}: exit={rc} violations={len(v)} {what[0][:200] if what else ''}", flush=True)
+        finally:
+            sh("git checkout -q -- . && git clean -qfd -e target", cwd="/repo")
+            sh("rm -f /verif/replays/*.json")
     prev = old.get("checks_run_against_it", {})
     if prev:
         meta["earlier_runs_before_checks_were_strengthened"] = old.get("earlier_runs_before_checks_were_strengthened", []) + [{k: v for k, v in prev.items() if k in results}]
@@ -82,7 +88,7 @@ def main():
     os.makedirs(d, exist_ok=True)
     shutil.copy(patch, os.path.join(d, "patch.diff"))
     shutil.copy(demo, os.path.join(d, "demo.rs"))
-    meta["demo"] = {"place_at": f"tests/{demo_name}.rs", "run": f"{demo_env} cargo test --offline {demo_args} --test {demo_name} {demo_tail}".replace("  ", " ").strip()}
+    meta["demo"] = {"place_at": f"tests/{demo_name}.rs", "run": f"{demo_env} {demo_cargo} test --offline {demo_args} --test {demo_name} {demo_tail}".replace("  ", " ").strip()}
     json.dump(meta, open(os.path.join(d, "meta.json"), "w"), indent=1)
 
 main()
